@@ -47,6 +47,10 @@ class World(object):
         self.bools = [B.Sym('p%d' % i, B.BOOL) for i in range(4)]
         self.bvs = [B.Sym('v%d' % i, B.BV(2)) for i in range(3)]
         self.us = [B.Sym('u%d' % i, G.US) for i in range(2)]
+        # two instances of one parametric declared sort
+        self.up = [[B.Sym('w%d' % i, ('U', 'Pr', (G.US,))) for i in range(2)],
+                   [B.Sym('x%d' % i, ('U', 'Pr', (B.BV(2),)))
+                    for i in range(2)]]
         self.hostile = [B.Sym('x y', B.BOOL), B.Sym('.def_0', B.BOOL),
                         B.Sym('st:ready', B.BOOL), B.Sym('cnt,0', B.BOOL),
                         B.Sym('a;b', B.BOOL), B.Sym('q#r', B.BOOL)]
@@ -86,6 +90,13 @@ class World(object):
                         (self.term_bv(1), self.term_bv(1)))
             if not self.use_sorts:
                 return r.choice(self.bools)
+            if r.random() < 0.3:
+                # (one instance per history: every further symbol of a
+                # declared sort multiplies the reference solver's
+                # enumeration)
+                if not hasattr(self, 'grp'):
+                    self.grp = r.choice(self.up)
+                return ('eq', None, (self.grp[0], self.grp[1]))
             return ('eq', None, (r.choice(self.us), r.choice(self.us)))
         op = r.choice(['and', 'or', 'not', 'implies', 'iff', 'ite'])
         if op == 'not':
